@@ -295,3 +295,44 @@ func CopyTree(src, dst string) error {
 		return os.WriteFile(target, data, info.Mode().Perm()|0o200)
 	})
 }
+
+// Template support: building the initial world (repositories, identities, first bug) costs far
+// more than one action, so a worker builds it once at a fixed path, keeps a copy next to it, and
+// later executions restore that copy to the same path (remote URLs embed the path) together with
+// the seam counters and model metadata recorded with it.
+type templateMeta struct {
+	Rand map[string]uint64 `json:"rand"`
+	Time map[string]uint64 `json:"time"`
+	Meta []byte            `json:"meta"`
+}
+
+// SaveTemplate snapshots dir (after the model initialised it) with model metadata.
+func SaveTemplate(dir string, meta []byte) error {
+	t := dir + ".tmpl"
+	_ = os.RemoveAll(t)
+	if err := CopyTree(dir, t); err != nil {
+		return err
+	}
+	r, tm := vctl.RawCounters()
+	b, _ := jsonMarshal(templateMeta{Rand: r, Time: tm, Meta: meta})
+	return os.WriteFile(dir+".tmpl.json", b, 0o644)
+}
+
+// RestoreTemplate copies the template back to dir and restores the counters. ok is false when no
+// template exists yet.
+func RestoreTemplate(dir string) (meta []byte, ok bool, err error) {
+	b, err := os.ReadFile(dir + ".tmpl.json")
+	if err != nil {
+		return nil, false, nil
+	}
+	var t templateMeta
+	if err := jsonUnmarshal(b, &t); err != nil {
+		return nil, false, err
+	}
+	_ = os.RemoveAll(dir)
+	if err := CopyTree(dir+".tmpl", dir); err != nil {
+		return nil, false, err
+	}
+	vctl.SetCounters(t.Rand, t.Time)
+	return t.Meta, true, nil
+}
